@@ -1,3 +1,14 @@
 import MpfVerif.DriverLoop
-/-! Driver of the C02 model (stub until the model exists): answers bad-op to everything. -/
-def main : IO UInt32 := MpfVerif.runDriver (fun (s : Unit) _ => (s, "bad-op")) ()
+import MpfVerif.Model.QueueEvent
+import MpfVerif.Model.EventBus
+/-! Driver of the C02 models: lines starting with `bus ` go to the event-bus model (`_run_handlers`: relay / boolean
+events), everything else to the queue-event model. -/
+open MpfVerif in
+def c02Step (s : QueueEvent.DState × EventBus.DState) (line : String) : (QueueEvent.DState × EventBus.DState) × String :=
+  if line.startsWith "bus " then
+    let (b, o) := EventBus.driverStep s.2 (line.drop 4).toString
+    ((s.1, b), o)
+  else
+    let (q, o) := QueueEvent.driverStep s.1 line
+    ((q, s.2), o)
+def main : IO UInt32 := MpfVerif.runDriver c02Step (MpfVerif.QueueEvent.init, MpfVerif.EventBus.init)
